@@ -8,6 +8,8 @@ M = [
  ("m01-builder-shared-off-by-one", ["C09"], "mtbl/block_builder.c",
   "while ((shared < min_length) && (ubuf_value(b->last_key, shared) == key[shared]))",
   "while ((shared + 1 < min_length) && (ubuf_value(b->last_key, shared) == key[shared]))"),
+ ("m41-restart-points-always-32bit", ["C11"], "mtbl/block.c",
+  "\tif (bi->restarts > UINT32_MAX)\n\t\treturn (mtbl_fixed_decode64(bi->data + bi->restarts + idx * sizeof(uint64_t)));", "\tif (bi->restarts > UINT32_MAX && idx == 0)\n\t\treturn (mtbl_fixed_decode64(bi->data + bi->restarts + idx * sizeof(uint64_t)));"),
  ("m02-decode-entry-fastpath-le128", ["C01"], "mtbl/block.c",
   "if ((*shared | *non_shared | *value_length) < 128) {", "if ((*shared | *non_shared | *value_length) <= 128) {"),
  ("m05-prefix-predicate-lt", ["C02"], "mtbl/reader.c",
